@@ -539,11 +539,15 @@ class IRWithUses(ABC):
         return None
 
 
-_VALUE_NAME_PATTERN = re.compile(r"([A-Za-z_$.-][\w$.-]*)")
+_VALUE_NAME_PATTERN = re.compile(r"([A-Za-z_$.-][\w$.-]*)", re.ASCII)
 """Pattern to check if a name is valid for an SSAValue or Block."""
 
-_VALUE_NAME_SUFFIX_PATTERN = re.compile(r"(_\d+)$")
-"""This pattern is used to remove the suffix from an SSAValue or Block name."""
+_VALUE_NAME_SUFFIX_PATTERN = re.compile(r"(_\d+)+$", re.ASCII)
+"""
+This pattern is used to remove the numeric suffixes from an SSAValue or Block name.
+All of them are removed, so that a name hint never ends in `_<digits>` and the names
+`hint`, `hint_1`, ... generated by the printer cannot clash with another hint.
+"""
 
 
 @dataclass(eq=False)
@@ -576,7 +580,7 @@ class IRWithName(ABC):
     @classmethod
     def extract_valid_name(cls, name: str | None) -> str | None:
         """
-        If the name is valid, extracts the name before an optional `_\\d+` suffix.
+        If the name is valid, extracts the name before any trailing `_\\d+` suffixes.
         Raises ValueError otherwise.
         """
         if name is None:
